@@ -748,7 +748,7 @@ static std::string stepImpl(const toks_t &t) {
     occa::array<int> out = slots[j].a;
     ivec want = contents(out);
     const int m = (int) want.size();
-    if (E != 0 && m < n) return "short";
+    if ((E != 0 && m < n) || m == 0) return "short";     // (an empty array in a scope is an untyped pointer)
     for (int i = 0; i < n; ++i) {
       if (E == 0) { if (in[i] >= 0 && in[i] < m) want[in[i]] = p; }
       else if (E == 1) want[i] = in[i] + p;
